@@ -28,6 +28,7 @@ type SpecEnv struct {
 	inOld  bool
 	nowSt  *State // inside old(..): the state old was entered from (for now(..))
 	useWitness bool
+	fallbackFr *Frame // names not found in fr are looked up here (a loop extracted into a helper: the contract's names are the caller's)
 }
 
 func (e *SpecEnv) clone() *SpecEnv {
@@ -37,6 +38,18 @@ func (e *SpecEnv) clone() *SpecEnv {
 
 func (fv *FuncVC) frameEnv(fr *Frame, at *ssa.BasicBlock, cur *State) *SpecEnv {
 	env := &SpecEnv{fv: fv, names: map[string]Val{}, cur: cur, old: fr.entrySt, pkg: pkgOf(fr.fn), fr: fr, at: at}
+	if fv.helperLoops != nil && fr.fn != fv.fn && fv.topFrame != nil && fv.topFrame.fn == fv.fn {
+		// an inlined helper whose loops carry `loop n` blocks of the function under verification: the blocks speak about
+		// that function's entry state and may name its variables
+		for k := range fv.helperLoops {
+			if strings.HasPrefix(k, funcKey(fr.fn)+"#") {
+				env.old = fv.topFrame.entrySt
+				env.fallbackFr = fv.topFrame
+				env.con = fv.con
+				break
+			}
+		}
+	}
 	if fr.con != nil {
 		env.con = fr.con
 	} else {
@@ -480,6 +493,14 @@ func (fv *FuncVC) resolveSourceName(env *SpecEnv, name string) (Val, bool) {
 			}
 			return v, true
 		}
+	}
+	if env.fallbackFr != nil && env.fallbackFr != fr {
+		ne := env.clone()
+		ne.fr = env.fallbackFr
+		ne.at = env.fallbackFr.curBlock
+		ne.loop = nil
+		ne.fallbackFr = nil
+		return fv.resolveSourceName(ne, name)
 	}
 	return Val{}, false
 }
